@@ -48,6 +48,8 @@ def plan(tier, seed):
     per = 6000 if tier == "quick" else 40000
     specs = [{"name": "s%02d" % i, "shard": i, "cases": per, "timeout": 7000} for i in range(n)]
     specs += [{"name": "pederr%d" % i, "kind": "pederr", "shard": i, "cases": 60 if tier == "quick" else 600, "timeout": 7000} for i in range(4)]
+    # session 4: the probability as the PROGRAM evaluates it - through the pedigree arrays and the Markov-blanket wrappers the sampler calls
+    specs += [{"name": "blanket%d" % i, "kind": "blanket", "shard": 30 + i, "cases": 200 if tier == "quick" else 1500, "timeout": 7000} for i in range(4)]
     return specs
 
 
@@ -56,6 +58,7 @@ def required(tier):
             "gamete_sums": 1000, "configs_unbalanced": 300, "configs_lambda": 300, "configs_clonal": 100,
             "configs_unknown_parent": 300, "configs_zero_error": 300, "invalid_trios_seen": 300,
             "dirty_scratch_calls": 5000, "extra_padding_calls": 5000, "unsorted_genotype_calls": 5000,
+            "blanket_sum_to_one_checked": 200, "blanket_sums_with_unknown_parent": 60, "blanket_sums_unknown_parent_edge_error_zero": 8,
             "configs_single_parent_partial_transmission": 300, "pederr_traces_checked": 150, "pederr_steps_decided": 5000, "pederr_traces_parent_ploidy_above_progeny": 40, "pederr_traces_with_valid_and_invalid_steps": 40}
 
 
@@ -333,9 +336,67 @@ def run_pederr(tier, seed, spec, col):
             col.violation("pederr-differs-from-zero-error-positivity", "[%s, rows %s] sample %d (ploidy %d, parents %s of ploidy %s, tau %s): PEDERR %.6g but the zero-error probability is zero in a fraction %.6g of the steps"
                           % (I["name"], "sorted" if sorted_rows else "unsorted", x, ploidy[x], known[x], [int(ploidy[p_]) if p_ >= 0 else None for p_ in known[x]], tau[x].tolist(), got[x], want[x]), case)
 
+def run_blanket(tier, seed, spec, col):
+    """Individuals without progeny: their Markov blanket holds only their own inheritance term, so the wrapper's value over all
+    their genotypes is the distribution the property is about - it must sum to one (unknown parents, user error rates of any
+    value on unknown edges included) and equal the brute-force model; with zero error it is positive iff the oracle's is."""
+    import itertools
+
+    from mchap.pedigree import prior as PP
+
+    from vlib import pedgen
+
+    for i in range(spec["cases"]):
+        rng = gen.rng_for(seed, ID, spec["shard"], i)
+        I = pedgen.make_pedigree(rng)
+        K = pedgen.Kernels(I)
+        J = pedgen.Joint(I)
+        n = len(I["ploidy"])
+        state = pedgen.random_state(rng, I)
+        leaves = [t for t in range(n) if not (K.children[t] >= 0).any()]
+        n_all = len(I["freqs"])
+        for t in leaves:
+            pl = int(I["ploidy"][t])
+            if math.comb(n_all + pl - 1, pl) > 400:
+                continue
+            unknown = int(I["parents"][t, 0] < 0) + int(I["parents"][t, 1] < 0)
+            tot, bad = [], None
+            for g in itertools.combinations_with_replacement(range(n_all), pl):
+                st = state.copy()
+                st[t, :pl] = g
+                common = dict(sample_genotypes=st, sample_ploidy=I["ploidy"], sample_parents=I["parents"], gamete_tau=I["tau"], gamete_lambda=I["lam"],
+                              gamete_error=I["err"], log_frequencies=K.logf, dosage=K.scratch[0], dosage_p=K.scratch[1], dosage_q=K.scratch[2],
+                              gamete_p=K.scratch[3], gamete_q=K.scratch[4], constraint_p=K.scratch[5], constraint_q=K.scratch[6], dosage_log_frequencies=K.scratch[7])
+                got = float(PP.markov_blanket_log_probability(target_index=t, sample_children=K.children, **common))
+                got2 = float(PP.generic_markov_blanket_log_probability(np.array([t], dtype=np.int64), **common))
+                want = J.log_T(st, t)
+                col.count("blanket_genotypes_evaluated")
+                tot.append(math.exp(got) if got > -math.inf else 0.0)
+                for nm, v in (("markov_blanket_log_probability", got), ("generic_markov_blanket_log_probability", got2)):
+                    if (v == -math.inf) != (want == -math.inf) or (want > -math.inf and abs(v - want) > 1e-9 * max(1.0, abs(want))):
+                        bad = "%s(target %d) = %.12g for genotype %s, the inheritance model gives %.12g" % (nm, t, v, list(g), want)
+            s_ = math.fsum(tot)
+            col.count("blanket_sum_to_one_checked")
+            if unknown:
+                col.count("blanket_sums_with_unknown_parent")
+                if any(I["parents"][t, j] < 0 and I["err"][t, j] != 1.0 for j in range(2)):
+                    col.count("blanket_sums_unknown_parent_edge_error_not_one")
+                if any(I["parents"][t, j] < 0 and I["err"][t, j] == 0.0 for j in range(2)):
+                    col.count("blanket_sums_unknown_parent_edge_error_zero")
+            case = {"kind": "blanket", "pedigree": pedgen.pack(I), "target": t}
+            col.case("BL|%d|%d|%d" % (spec["shard"], i, t), nontrivial=True)
+            if abs(s_ - 1.0) > 1e-9:
+                col.violation("program-level-progeny-pmf-does-not-sum-to-one", "individual %d of pedigree %s (parents %s, gamete error %s, tau %s): the probabilities the sampler's blanket function assigns to its %d genotypes sum to %.12g"
+                              % (t, I["name"], I["parents"][t].tolist(), I["err"][t].tolist(), I["tau"][t].tolist(), len(tot), s_), case)
+            elif bad:
+                col.violation("program-level-progeny-pmf-differs-from-gamete-model", bad + " [pedigree %s, parents %s, gamete error %s]" % (I["name"], I["parents"][t].tolist(), I["err"][t].tolist()), case)
+
+
 def run_shard(tier, seed, spec, col):
     if spec.get("kind") == "pederr":
         return run_pederr(tier, seed, spec, col)
+    if spec.get("kind") == "blanket":
+        return run_blanket(tier, seed, spec, col)
     K = kernels()
     for i in range(spec["cases"]):
         rng = gen.rng_for(seed, ID, spec["shard"], i)
